@@ -1,8 +1,14 @@
-(** C08 -- helper calls follow the documented contract (interpreter part: statements about the ISA
-    step, which the regenerated interpreter equals on every reachable state, C01_step_refines).
-    Proofs: theories/InterpCalls.v. *)
+(** C08 -- helper calls follow the documented contract.  Interpreter: statements about the ISA step, which the regenerated
+    interpreter equals on every reachable state (C01_step_refines); proofs in theories/InterpCalls.v.  x86-64 JIT: the
+    instructions emitted around `emit_call` (regenerated into coq/gen/JitMisc.v) put eBPF r1..r5 in the System V argument
+    registers, push an even number of words, take the result from rax and give back r6..r10 and the JIT's own r10 -- for any
+    helper that honours the ABI (theories/JitMiscProofs.v).  Cranelift: the call instruction built by translate_program is
+    keyed by the unsigned immediate, reads r1..r5 in order and defines r0 (theories/ClMiscProofs.v).  What the machine code
+    does at run time (alignment established by the prologue included) is exercised by checks/C08.py. *)
 From Coq Require Import ZArith List Bool.
 From RbpfV Require Import MachInt Ebpf Cases Mem InterpDefs WellFormed Verifier Isa MemLemmas Interp InterpProofs InterpCalls.
+From RbpfV Require Import X86Sem X86Seq ClMiscProofs JitMiscProofs.
+From RbpfV.gen Require Import JitLogic JitMisc ClMisc.
 Import ListNotations.
 Open Scope Z_scope.
 
@@ -28,6 +34,30 @@ Theorem C08_unknown_helper : forall E reg pc fidx stacks m st',
   isa_step E (reg, pc, fidx, stacks, m) = Err EUnknownHelper.
 Proof. exact unknown_helper_step. Qed.
 
+(** x86-64 JIT: see the header; [ereg k] is the x86 register of eBPF register k, [sysv_args] = rdi, rsi, rdx, rcx, r8 and
+    [sysv_callee_saved] = rbx, rbp, r12-r15 *)
+Theorem C08_jit_call_contract : forall R stk, (forall r, 0 <= R r < 2 ^ 64) ->
+  exists R1 fl1,
+    run_seq gen_jit_call_pre R stk = Some (XFall {| x_r := R1; x_stk := R 10 :: R 10 :: stk; x_fl := fl1 |})
+    /\ map R1 sysv_args = map (fun k => R (ereg k)) [1; 2; 3; 4; 5]%nat
+    /\ (forall r, r <> 1 -> R1 r = R r)
+    /\ forall R2 fl2, (forall r, In r sysv_callee_saved -> R2 r = R1 r) ->
+       exists R3 fl3,
+         srun 3 gen_jit_call_post {| x_r := R2; x_stk := R 10 :: R 10 :: stk; x_fl := fl2 |}
+           = Some (XFall {| x_r := R3; x_stk := stk; x_fl := fl3 |})
+         /\ R3 (ereg 0) = R2 0
+         /\ R3 10 = R 10
+         /\ forall k, In k [6; 7; 8; 9; 10]%nat -> R3 (ereg k) = R (ereg k).
+Proof. exact jit_helper_call_contract. Qed.
+
+(** both compilers look the helper up under the unsigned immediate and refuse an unregistered id at compile time *)
+Theorem C08_compiled_call_key : forall i, - 2 ^ 31 <= imm i < 2 ^ 31 ->
+  gen_jit_call_key i = u32 (imm i) /\ gen_jit_call_unknown_is_error = true /\
+  gen_cl_call_key i = u32 (imm i) /\ gen_cl_call_args = [1; 2; 3; 4; 5] /\ gen_cl_call_result = 0.
+Proof. exact compiled_call_key. Qed.
+
 Print Assumptions C08_helper_call.
+Print Assumptions C08_jit_call_contract.
+Print Assumptions C08_compiled_call_key.
 Print Assumptions C08_other_registers.
 Print Assumptions C08_unknown_helper.
